@@ -3,8 +3,8 @@
   EngineBase._modify_input / _read_input_settings   (mdp style `keyword = value`)
   lammps.write_for_run                              (`infretis_*` variable substitution)
 
-Tie against Infretis.Template.modifyInput / readSettings / writeForRun (ops mdpmodify, mdpread,
-wfr; repaired variants mdpmodifyR, wfrR) and direct evaluation of the property predicates
+Tie against Infretis.Template.modifyInput / readSettings / writeForRun (ops mdpmodify, mdpread, wfr = the code
+after the repairs eaf64e1 / f746fff; mdpmodifyA, wfrA = the code before them, only used to recognise a regression) and direct evaluation of the property predicates
 (only requested entries change; requested entries get the value; idempotence) on the real code.
 """
 from __future__ import annotations
@@ -128,8 +128,12 @@ def mdp_predicates(box, EngineBase, tmpl, settings, out=None):
         else:
             want.append(line)
     app = [f"{k} = {v}\n" for k, v in settings.items() if k not in seen]
-    glued = bool(app) and bool(tmpl) and not tmpl.endswith("\n") and not want[-1].endswith("\n")
+    # the property: appended settings are entries of their own — if the last template line lacks its newline
+    # it is completed before the first appended setting (a regression of repair eaf64e1 glues them together)
+    glued = bool(app) and bool(want) and not want[-1].endswith("\n")
     sig = SIG_MDP_NL if glued else None
+    if glued:
+        want[-1] = want[-1] + "\n"
     if ol != want + app:
         return (sig or "C19:mdp:edit-not-exact",
                 f"output lines {ol!r} differ from template lines with requested keys set {want + app!r}")
@@ -336,17 +340,14 @@ def lmp_cases(ctx):
 
 
 # ----------------------------------------------------------------------------- run
-def agree(ctx, case, code, asis, repaired, state):
-    """code must agree with the as-is model everywhere or with the repaired model everywhere"""
+def agree(ctx, case, code, now, asis, state):
+    """the code must agree with the model of the code as it is now (after the repairs); where it agrees with the
+    as-is model of before the repair instead, the repair has regressed (the predicates name the old signature)"""
+    if code == now:
+        return
     if code == asis:
-        if asis != repaired:
-            state["asis"] += 1
-        return
-    if code == repaired:
-        state["rep"] += 1
-        state.setdefault("rep_cases", []).append(case)
-        return
-    ctx.disagree(case, code, asis, note=f"repaired model: {repaired}")
+        state["regressed"] += 1
+    ctx.disagree(case, code, now, note=f"model of the code before the repair: {asis}")
 
 
 def note_fail(fails, r, replay):
@@ -378,15 +379,15 @@ def _run(ctx, box, EngineBase, write_for_run):
     code = [mdp_code(box, EngineBase, t, s) for (t, s) in allc]
     code_rd = [mdp_read_code(box, EngineBase, c) if isinstance(c, str) and not c.startswith("err:") else None
                for c in code[: len(cases)]]
-    st = {"asis": 0, "rep": 0}
+    st = {"regressed": 0}
     if have:
-        outA = ctx.driver([f"mdpmodify {hexs(t)} {sett_tokens(s)}" for (t, s) in allc])
-        outR = ctx.driver([f"mdpmodifyR {hexs(t)} {sett_tokens(s)}" for (t, s) in allc])
+        outN = ctx.driver([f"mdpmodify {hexs(t)} {sett_tokens(s)}" for (t, s) in allc])
+        outA = ctx.driver([f"mdpmodifyA {hexs(t)} {sett_tokens(s)}" for (t, s) in allc])
         outD = ctx.driver([f"mdpread {hexs(c)}" if isinstance(c, str) and not c.startswith("err:") else "mdpread -"
                            for c in code[: len(cases)]])
         for k, (t, s) in enumerate(allc):
             agree(ctx, {"part": PART, "fn": "_modify_input", "template": t, "settings": {a: str(b) for a, b in s.items()}},
-                  code[k], unhex(outA[k]), unhex(outR[k]), st)
+                  code[k], unhex(outN[k]), unhex(outA[k]), st)
         for k in range(len(cases)):
             if code_rd[k] is None or not isinstance(code_rd[k], dict):
                 continue
@@ -394,9 +395,6 @@ def _run(ctx, box, EngineBase, write_for_run):
             md = [(unhex(toks[1 + 2 * i]), unhex(toks[2 + 2 * i])) for i in range(int(toks[0]))]
             if md != list(code_rd[k].items()):
                 ctx.disagree({"part": PART, "fn": "_read_input_settings", "text": code[k]}, list(code_rd[k].items()), md)
-        if st["asis"] and st["rep"]:
-            ctx.disagree({"part": PART, "fn": "_modify_input", "note": "code agrees with neither variant everywhere",
-                          "case": st["rep_cases"][0]}, "mixed", "asIs xor repaired")
     for k, (t, s) in enumerate(cases):
         nontriv = any(kw_of(l)[1] in s for l in lines_nl(t))
         ctx.count(1, branch="mdp:" + ("requested-present" if nontriv else "append-only" if s else "no-settings"))
@@ -414,19 +412,16 @@ def _run(ctx, box, EngineBase, write_for_run):
     # ------------------------------------------------ LAMMPS
     lcases = lmp_cases(ctx)
     lcode = [wfr_code(box, write_for_run, t, s) for (t, s) in lcases]
-    st2 = {"asis": 0, "rep": 0}
+    st2 = {"regressed": 0}
     if have:
-        outA = ctx.driver([f"wfr {hexs(t)} {sett_tokens(s)}" for (t, s) in lcases])
-        outR = ctx.driver([f"wfrR {hexs(t)} {sett_tokens(s)}" for (t, s) in lcases])
+        outN = ctx.driver([f"wfr {hexs(t)} {sett_tokens(s)}" for (t, s) in lcases])
+        outA = ctx.driver([f"wfrA {hexs(t)} {sett_tokens(s)}" for (t, s) in lcases])
         for k, (t, s) in enumerate(lcases):
-            a = outA[k].split()
-            r = outR[k].split()
+            a = outN[k].split()
+            r = outA[k].split()
             c = (("ok" if lcode[k][0] == "ok" else lcode[k][0]), lcode[k][1])
             agree(ctx, {"part": PART, "fn": "write_for_run", "template": t, "settings": {x: str(y) for x, y in s.items()}},
                   c, (a[0], unhex(a[1])), (r[0], unhex(r[1])), st2)
-        if st2["asis"] and st2["rep"]:
-            ctx.disagree({"part": PART, "fn": "write_for_run", "note": "code agrees with neither variant everywhere",
-                          "case": st2["rep_cases"][0]}, "mixed", "asIs xor repaired")
     for k, (t, s) in enumerate(lcases):
         toks = set(t.split())
         nontriv = any(x in toks for x in s)
@@ -445,15 +440,13 @@ def _run(ctx, box, EngineBase, write_for_run):
     for sig in sorted(fails):
         size, what, replay, n = fails[sig]
         ctx.fail(sig, f"{what} [{n} failing inputs this run; smallest shown]", replay)
-    ctx.extra["tmpl_variant_agreement"] = {"mdp": st["asis"] and "asIs" or (st["rep"] and "repaired") or "indistinguishable",
-                                           "lammps": st2["asis"] and "asIs" or (st2["rep"] and "repaired") or "indistinguishable"}
+    ctx.extra["tmpl_cases_behaving_as_before_the_repairs"] = {"mdp": st["regressed"], "lammps": st2["regressed"]}
     ctx.assumptions += [
         "templates are ASCII without '\\r' (text-mode newline translation and non-ASCII white space are not modelled)",
         "mdp delimiter is '=' (the only one the engines pass); settings values are compared through str()",
         "mdp predicates are stated for non-empty keys without '=', newline or outer blanks and values without newline; "
         "LAMMPS predicates for templates where every variable is a token, no variable is a proper substring of a "
         "template token / other variable and no value contains a variable (outside: model-vs-code only)",
-        "lammps_no_var_remains is not proved (see Props/C19.lean comment); it is evaluated on the real code on the domain above",
     ]
     return ("templates: all mdp/LAMMPS templates of ≤ 3 (thorough: 4) lines over a 7/6-line alphabet × final newline "
             "present/absent × 5 settings dicts, then seeded random templates of ≤ 9 lines from a grammar with comments, "
